@@ -30,8 +30,10 @@
   * `core::iter::from_fn(move || ..)` is the captured state plus the closure as a step function (`FromFn`); a `for`
     over it whose body may `return` runs on explicit `fuel` (`for_from_fn`; a function containing such a loop, and
     its callers, take `fuel` as their first parameter).
-  * NOT REGENERATED (bound here to the hand model, checked by correspondence only): `StrGlyphMapping::chars` (the
-    `from_fn(..).flatten()` range decoder), `Image::new(&glyph, p).draw` (C09's image model: guard of
+  * `e?` on an `Option` inside a `from_fn` closure ends the closure with `None`; `start..=end` on chars is the list
+    `Font.charRange` (the `Step` impl of `char`: surrogates skipped); `.flatten()` of a `from_fn` iterator of such
+    ranges = their concatenation, at most `fuel` ranges.
+  * NOT REGENERATED (bound here to the hand model, checked by correspondence only): `Image::new(&glyph, p).draw` (C09's image model: guard of
     `draw_sub_image` + one `fill_contiguous` of the cell), `MonoFontDrawTarget`'s lowering (`Mode.lower`).
 -/
 import EG.Model.TextLayout
@@ -181,9 +183,9 @@ structure StrGlyphMapping where
   replacement_index : Nat
 abbrev StrGlyphMapping_data (m : StrGlyphMapping) : Str := m.data
 abbrev StrGlyphMapping_replacement_index (m : StrGlyphMapping) : Nat := m.replacement_index
-/-- NOT regenerated: `StrGlyphMapping::chars()` (the `from_fn(..).flatten()` decoder of `\0 start end` ranges) is
-the hand model's `Font.expand`. -/
-abbrev StrGlyphMapping_chars (m : StrGlyphMapping) : List Nat := Font.expand m.data
+/-- `start..=end` on `char`, as the list of the items its iterator yields: `<char as Step>` skips the surrogate gap
+(the hand model's `Font.charRange`: `start`, then `forward(c, 1)` up to and including `end`; empty when `start > end`). -/
+abbrev char_range_inclusive (s e : Nat) : List Nat := Font.charRange s e
 
 /-! ## draw targets -/
 
@@ -245,6 +247,16 @@ structure FromFn (σ β : Type) where
   state : σ
   step : σ → Option β × σ
 abbrev from_fn_mk {σ β : Type} (state : σ) (step : σ → Option β × σ) : FromFn σ β := ⟨state, step⟩
+
+/-- the first `fuel` items of a `from_fn` iterator (up to its first `None`) -/
+def from_fn_to_list {σ β : Type} : Nat → FromFn σ β → List β
+  | 0, _ => []
+  | n + 1, it =>
+    match it.step it.state with
+    | (none, _) => []
+    | (some x, s') => x :: from_fn_to_list n ⟨s', it.step⟩
+/-- `from_fn(..).flatten()` where the items are themselves iterators (lists): their items in order -/
+abbrev iter_flatten_from_fn {σ β : Type} (fuel : Nat) (it : FromFn σ (List β)) : List β := (from_fn_to_list fuel it).flatten
 
 /-- what one run of a `for` body does: go on with the updated variables, or `return` from the function -/
 inductive ForStep (τ ρ : Type) where
